@@ -294,6 +294,55 @@ fn decode_generator(generator: &[u8]) -> Result<Vec<[Vec<u8>; 4]>, String> {
     Ok(out)
 }
 
+/// Size weight of a generator as consensus defines it for interned generators, computed
+/// independently of clvmr's intern_tree and of generator_cost.rs: every distinct atom counts
+/// its length + 2, every distinct pair 3 (distinct by content / by the identity of its children).
+fn interned_weight(generator: &[u8]) -> Result<u64, String> {
+    use std::collections::HashMap;
+    let mut a = Allocator::new();
+    let root = node_from_bytes_backrefs(&mut a, generator).map_err(|e| format!("{e:?}"))?;
+    let mut atoms: HashMap<Vec<u8>, u32> = HashMap::new();
+    let mut pairs: HashMap<(u32, u32), u32> = HashMap::new();
+    let mut id_of: HashMap<NodePtr, u32> = HashMap::new();
+    let mut next = 0u32;
+    let mut weight = 0u64;
+    // iterative post-order
+    let mut stack: Vec<(NodePtr, bool)> = vec![(root, false)];
+    while let Some((n, expanded)) = stack.pop() {
+        if id_of.contains_key(&n) {
+            continue;
+        }
+        match a.sexp(n) {
+            SExp::Atom => {
+                let bytes = a.atom(n).as_ref().to_vec();
+                let len = bytes.len() as u64;
+                let id = *atoms.entry(bytes).or_insert_with(|| {
+                    next += 1;
+                    weight += len + 2;
+                    next
+                });
+                id_of.insert(n, id);
+            }
+            SExp::Pair(l, r) => {
+                if expanded {
+                    let key = (id_of[&l], id_of[&r]);
+                    let id = *pairs.entry(key).or_insert_with(|| {
+                        next += 1;
+                        weight += 3;
+                        next
+                    });
+                    id_of.insert(n, id);
+                } else {
+                    stack.push((n, true));
+                    stack.push((r, false));
+                    stack.push((l, false));
+                }
+            }
+        }
+    }
+    Ok(weight)
+}
+
 enum B {
     C(BlockBuilder),
     I(InternedBlockBuilder),
@@ -396,6 +445,18 @@ fn output_consistent(
             return Err((
                 "cost_not_sum_of_declared_and_bytes",
                 format!("cost {cost} but 20 + declared costs of the accepted attempts + {} bytes * {} = {expect}", generator.len(), k.cost_per_byte),
+            ));
+        }
+    } else {
+        // interned builder: 20 (the quote, as for the compressed builder) + declared costs + the
+        // interned size weight of the emitted generator
+        let declared: u128 = accepted.iter().map(|a| u128::from(a.declared)).sum();
+        let w = interned_weight(generator).map_err(|e| ("generator_malformed", e))?;
+        let expect = 20u128 + declared + u128::from(w) * u128::from(k.cost_per_byte);
+        if u128::from(cost) != expect {
+            return Err((
+                "cost_not_sum_of_declared_and_interned_size",
+                format!("cost {cost} but 20 + declared costs of the accepted attempts + interned weight {w} * {} = {expect}", k.cost_per_byte),
             ));
         }
     }
